@@ -8,9 +8,9 @@ import (
 	"github.com/KevoDB/kevo/pkg/zzverif/vsym"
 )
 
-// VerifCrash: n puts to distinct keys with synchronous logging, process dies anywhere, reopen:
+// VerifC02_CrashPrefix: n puts to distinct keys with synchronous logging, process dies anywhere, reopen:
 // recovered state = state after some prefix j of the puts, j >= number of acknowledged puts.
-func VerifCrash() {
+func VerifC02_CrashPrefix() {
 	cfg := config.NewDefaultConfig(vsym.Dir())
 	K := [2][]byte{vsym.Bytes("K0", 1), vsym.Bytes("K1", 1)}
 	vsym.Assume(!vsym.EqBytes(K[0], K[1]))
@@ -29,7 +29,7 @@ func VerifCrash() {
 			}
 		}
 		m.Close()
-	})
+	}, &acked)
 	_ = crashed
 	m2, err := NewManager(cfg, stats.NewAtomicCollector())
 	vsym.Assert(err == nil, "reopen after crash failed")
